@@ -43,6 +43,8 @@ import PsutilModel.Proofs.C02
 import PsutilModel.Proofs.C01Hid
 import PsutilModel.Proofs.C02Fault
 import PsutilModel.Spec.C02Fault
+import PsutilModel.Proofs.C02Stat
+import PsutilModel.Spec.C02Stat
 import PsutilModel.Model.C02Gen
 namespace Psutil.C02
 open Psutil.C01 Psutil.C01.Spec
@@ -849,5 +851,415 @@ theorem C02_fault_swallowed_counterexample :
   · intro H
     have := H 1000 (by decide) witnessFaultAsked (by decide) (by decide) 0 _ h1
     revert this; decide
+
+/-! ## The bytes of `/proc/<pid>/stat` — command names and the other fields as a dimension of the histories
+     (seeded round 5, C02-6; Model/C01Stat.lean + Model/C02Stat.lean, Spec/C02Stat.lean, Proofs/C02Stat.lean)
+
+The identity `(pid, create_time)` behind `==`, `hash()` and `is_running()` is PARSED by psutil from the stat line the
+kernel publishes, `pid (comm) state ppid … starttime …` (proc(5)).  `comm` is chosen by the process itself — the name of
+the executable, `prctl(PR_SET_NAME)` —: any bytes (spaces, parentheses, `) `, newlines, text that looks like the rest of a
+stat line), and it CHANGES while the process lives (`execve()` of a script after `fork()`, a rename), as do the counters
+in the other fields.  Histories `List FEvB`: every event of the histories above, where a `spawn` says which comm and
+which other fields the new incarnation shows, plus `rewrite pid comm aux` (the line of a LIVING process changes in
+everything but pid, state and starttime) — and the failing reads of the previous section, all interleaved.  psutil's
+calls run on the kernel as its reader makes it out of those bytes (`readStat` in the extracted shape `scfg`, `view`,
+`FStB.step`); the specification looks at the kernel's own table only (`ListedB`, `SameIncarnation`; Spec/C02Stat.lean).
+Hypothesis `FHistOKB`: the lines are in the kernel's format (a state letter, 17 numbers between ppid and starttime, at
+least 17 after it) and the process table obeys `FHistOK true`.  NO hypothesis on any comm, none on when lines change. -/
+
+/-- **scfg_good** (obligation on the translator's facts `statSearch`, `statNeedle`, `statSkip`, `statSplit`,
+    `statCtimeIdx`, `statStatusIdx`, `createReads` — extracted by following the DATA FLOW of `_parse_stat_file` /
+    `create_time`, helper functions inlined, so a move of the same logic into a helper changes nothing): the end of the
+    name is the LAST `)` of the file content, the fields start two bytes further and are split at runs of whitespace,
+    field 19 is stored as 'create_time' and field 0 as 'status', `create_time()` is
+    `float(<stat record>['create_time']) / CLOCK_TICKS` + boot time, and the driver runs exactly that reader.  Stops
+    building when the name is delimited any other way (first `)`, first `) `, a non-greedy regular expression, a
+    `partition`, …) or when `create_time()` obtains starttime by another route. -/
+theorem scfg_good :
+    scfgRaw.Good ∧ Gen.C02.statSearch = "rfind" ∧ Gen.C02.statSplit = "ws"
+      ∧ Gen.C02.createReads = "float(create_time)/CLOCK_TICKS" ∧ scfg = scfgRaw := by
+  decide
+
+theorem scfg_is_good : scfg.Good := scfg_good.2.2.2.2 ▸ scfg_good.1
+
+/-- **C02_stat_identity_any_comm.** Whatever bytes an incarnation shows as its command name (`x.comm` is
+    unconstrained) and whatever its other fields, psutil's reader recovers from its stat line exactly the kernel's
+    starttime and whether it is a zombie — the two things `_ident` and `is_running()` are made of. -/
+theorem C02_stat_identity_any_comm (x : InstB) (hwf : x.aux.WF) :
+    readStat scfg (statLine x) = .ok x.stamp x.zombie := readStat_statLine scfg_is_good x hwf
+
+/-- (helper) the byte-level run from the initial state IS the run of its erasure on the kernel's own table, and the
+    reached kernel holds kernel-formatted lines -/
+theorem statB_run (b0 : Nat) (h : List FEvB) (hh : FHistOKB h) :
+    (runFB scfg cfg statFault (FStB.init b0) h).toFSt = runF cfg statFault (FSt.init b0) (h.map FEvB.erase)
+    ∧ (runFB scfg cfg statFault (FStB.init b0) h).sb.kern.WF :=
+  runFB_toFSt scfg_is_good cfg statFault h (FStB.init b0) (initB_wf b0) hh.1
+
+/-- **C02_stat_bytes_refine.** Every byte-level history — any comm at every spawn, lines rewritten while processes
+    live, reads failing transiently — runs exactly as the history of Model/C02Fault.lean it stands for, and in the
+    state it reaches every psutil call has the outcome and leaves the objects that call has on the kernel's own table. -/
+theorem C02_stat_bytes_refine (b0 : Nat) (h : List FEvB) (hh : FHistOKB h) :
+    (runFB scfg cfg statFault (FStB.init b0) h).toFSt = runF cfg statFault (FSt.init b0) (h.map FEvB.erase)
+    ∧ ∀ call, ((runFB scfg cfg statFault (FStB.init b0) h).step scfg cfg statFault (.ev (.c call))).2
+          = some (stepF cfg statFault (runF cfg statFault (FSt.init b0) (h.map FEvB.erase)).st
+              (runF cfg statFault (FSt.init b0) (h.map FEvB.erase)).faulty call).2
+        ∧ ((runFB scfg cfg statFault (FStB.init b0) h).step scfg cfg statFault (.ev (.c call))).1.toFSt
+          = ((runF cfg statFault (FSt.init b0) (h.map FEvB.erase)).step cfg statFault (.ev (.c call))).1 := by
+  obtain ⟨h1, h2⟩ := statB_run b0 h hh
+  refine ⟨h1, fun call => ?_⟩
+  obtain ⟨a, b, _⟩ := FStB.step_call_good scfg_is_good cfg statFault _ h2 call
+  rw [h1] at a b
+  exact ⟨a, b⟩
+
+/-- **C02_eq_hash_any_stat_bytes** (`==` and `hash()` follow the process for ANY stat bytes).  After any byte-level
+    history — every incarnation showing any command name, the holders of one PID showing the same name or names of
+    the same shape, living processes renaming themselves between the construction of the two objects, reads failing —
+    two objects are equal exactly when they have the same PID and were built for the same process start, and equal
+    objects hash alike. -/
+theorem C02_eq_hash_any_stat_bytes (b0 : Nat) (h : List FEvB) (hh : FHistOKB h) (i j : Nat) (a b : PObj)
+    (ha : (runFB scfg cfg statFault (FStB.init b0) h).sb.ps.objs[i]? = some a)
+    (hb : (runFB scfg cfg statFault (FStB.init b0) h).sb.ps.objs[j]? = some b) :
+    ((runFB scfg cfg statFault (FStB.init b0) h).step scfg cfg statFault (.ev (.c (.eq i j)))).2
+        = some (.ok (.bool (decide (SameIncarnation a b))))
+    ∧ (SameIncarnation a b →
+        ((runFB scfg cfg statFault (FStB.init b0) h).step scfg cfg statFault (.ev (.c (.hash i)))).2
+        = ((runFB scfg cfg statFault (FStB.init b0) h).step scfg cfg statFault (.ev (.c (.hash j)))).2) := by
+  obtain ⟨hrun, hcall⟩ := C02_stat_bytes_refine b0 h hh
+  have ha' : (runF cfg statFault (FSt.init b0) (h.map FEvB.erase)).st.ps.objs[i]? = some a := by rw [← hrun]; exact ha
+  have hb' : (runF cfg statFault (FSt.init b0) (h.map FEvB.erase)).st.ps.objs[j]? = some b := by rw [← hrun]; exact hb
+  obtain ⟨h1, h2⟩ := C02_fault_eq_hash b0 (h.map FEvB.erase) hh.2 i j a b ha' hb'
+  refine ⟨by rw [(hcall _).1, h1], fun hs => by rw [(hcall _).1, (hcall _).1, h2 hs]⟩
+
+/-- **C02_isRunning_any_stat_bytes** (`is_running()` follows the process for ANY stat bytes — the clause seeded C02-6
+    breaks).  After any byte-level history, for any object: `is_running()` is True while the object's own incarnation
+    is in the kernel's table — however often that process has renamed itself or its counters have moved since the
+    object was built —, False once it is not — whatever the new holder of the PID calls itself, the very same name
+    included —, or, only while reads of the object's own PID fail, leaves with the OS error. -/
+theorem C02_isRunning_any_stat_bytes (b0 : Nat) (h : List FEvB) (hh : FHistOKB h) (i : Nat) (o : PObj)
+    (ho : (runFB scfg cfg statFault (FStB.init b0) h).sb.ps.objs[i]? = some o) :
+    RightOrWithheldB (runFB scfg cfg statFault (FStB.init b0) h).faulty (runFB scfg cfg statFault (FStB.init b0) h).sb.kern o
+      ((runFB scfg cfg statFault (FStB.init b0) h).step scfg cfg statFault (.ev (.c (.isRunning i)))).2 := by
+  obtain ⟨hrun, hcall⟩ := C02_stat_bytes_refine b0 h hh
+  have ho' : (runF cfg statFault (FSt.init b0) (h.map FEvB.erase)).st.ps.objs[i]? = some o := by rw [← hrun]; exact ho
+  have hex := C02_fault_isRunning_exact b0 (h.map FEvB.erase) hh.2 i o ho'
+  rw [(hcall _).1, hex, ← hrun]
+  show RightOrWithheldB (runFB scfg cfg statFault (FStB.init b0) h).faulty _ o
+    (some (if !flagged o && (runFB scfg cfg statFault (FStB.init b0) h).faulty.contains o.pid then OutF.osError
+      else .ok (.bool (listedB (runFB scfg cfg statFault (FStB.init b0) h).sb.kern.forget o))))
+  unfold RightOrWithheldB
+  split
+  · rename_i hc
+    simp only [Bool.and_eq_true, List.contains_iff_mem] at hc
+    exact Or.inr (Or.inr ⟨rfl, by simpa using hc.2⟩)
+  · cases hl : listedB (runFB scfg cfg statFault (FStB.init b0) h).sb.kern.forget o
+    · exact Or.inr (Or.inl ⟨fun hL => (by rw [← listedB_forget_iff, hl] at hL; cases hL), rfl⟩)
+    · exact Or.inl ⟨(listedB_forget_iff _ o).1 hl, rfl⟩
+
+/-- **C02_isRunning_iff_listed_any_stat_bytes.** With no read failing at the moment of the call the answer is given
+    and exact: True iff the object's own incarnation is in the kernel's table. -/
+theorem C02_isRunning_iff_listed_any_stat_bytes (b0 : Nat) (h : List FEvB) (hh : FHistOKB h) (i : Nat) (o : PObj)
+    (ho : (runFB scfg cfg statFault (FStB.init b0) h).sb.ps.objs[i]? = some o)
+    (hclear : (runFB scfg cfg statFault (FStB.init b0) h).faulty = []) :
+    (ListedB (runFB scfg cfg statFault (FStB.init b0) h).sb.kern o
+      ∧ ((runFB scfg cfg statFault (FStB.init b0) h).step scfg cfg statFault (.ev (.c (.isRunning i)))).2
+          = some (.ok (.bool true)))
+    ∨ (¬ ListedB (runFB scfg cfg statFault (FStB.init b0) h).sb.kern o
+      ∧ ((runFB scfg cfg statFault (FStB.init b0) h).step scfg cfg statFault (.ev (.c (.isRunning i)))).2
+          = some (.ok (.bool false))) := by
+  rcases C02_isRunning_any_stat_bytes b0 h hh i o ho with h1 | h1 | ⟨_, hm⟩
+  · exact Or.inl h1
+  · exact Or.inr h1
+  · rw [hclear] at hm; cases hm
+
+/-- **C02_rename_changes_no_answer** (the second half of what seeded C02-6 breaks: a process RENAMING itself while
+    an object exists).  In ANY state whose lines are kernel-formatted: when the line of a listed process changes in
+    anything but pid, state and starttime — a new command name of any bytes, new counters — the kernel's own table is
+    what it was (`forget`), and EVERY psutil call — `is_running()`, `==`, `hash()`, `Process(pid)`, `process_iter()`,
+    signals … on any object — has exactly the outcome it had before the change. -/
+theorem C02_rename_changes_no_answer (fs : FStB) (hk : fs.sb.kern.WF) (pid : Nat) (comm : Bytes) (aux : Aux)
+    (haux : aux.WF) (call : Call) :
+    (fs.step scfg cfg statFault (.ev (.k (.rewrite pid comm aux)))).1.sb.kern.forget = fs.sb.kern.forget
+    ∧ ((fs.step scfg cfg statFault (.ev (.k (.rewrite pid comm aux)))).1.step scfg cfg statFault (.ev (.c call))).2
+        = (fs.step scfg cfg statFault (.ev (.c call))).2 := by
+  have hk' := FStB.step_wf scfg cfg statFault fs hk (.ev (.k (.rewrite pid comm aux))) haux
+  have hf : (fs.step scfg cfg statFault (.ev (.k (.rewrite pid comm aux)))).1.sb.kern.forget = fs.sb.kern.forget := by
+    rw [(FStB.step_kernel_event scfg cfg statFault fs _).2]; exact forget_rewrite _ _ _ _
+  refine ⟨hf, ?_⟩
+  rw [(FStB.step_call_good scfg_is_good cfg statFault _ hk' call).1, (FStB.step_call_good scfg_is_good cfg statFault fs hk call).1]
+  simp only [FStB.toFSt, StB.toSt, hf]
+  rfl
+
+/-- **C02_never_true_after_gone_any_stat_bytes** ("False ever after", over the byte dimension).  Once the object's
+    own incarnation has left the kernel's table, `is_running()` is never True again after any continuation — the PID
+    taken by a process with the same command name and the same other fields, lines rewritten, reads failing. -/
+theorem C02_never_true_after_gone_any_stat_bytes (b0 : Nat) (h : List FEvB) (hh : FHistOKB h) (i : Nat) (o : PObj)
+    (ho : (runFB scfg cfg statFault (FStB.init b0) h).sb.ps.objs[i]? = some o)
+    (hgone : ¬ ListedB (runFB scfg cfg statFault (FStB.init b0) h).sb.kern o) (h2 : List FEvB) (hh2 : FHistOKB h2) :
+    ((runFB scfg cfg statFault (runFB scfg cfg statFault (FStB.init b0) h) h2).step scfg cfg statFault
+        (.ev (.c (.isRunning i)))).2 ≠ some (.ok (.bool true)) := by
+  obtain ⟨hrun, _⟩ := statB_run b0 h hh
+  obtain ⟨hrun2, hcall2⟩ := C02_stat_bytes_refine b0 (h ++ h2) (hh.append hh2)
+  rw [runFB_append] at hrun2 hcall2
+  rw [List.map_append, runF_append] at hrun2 hcall2
+  have ho' : (runF cfg statFault (FSt.init b0) (h.map FEvB.erase)).st.ps.objs[i]? = some o := by rw [← hrun]; exact ho
+  have hgone' : ¬ Listed (runF cfg statFault (FSt.init b0) (h.map FEvB.erase)).st.kern o := by
+    rw [← hrun]; exact fun hl => hgone ((listedB_forget _ o).2 hl)
+  have := C02_fault_never_true_after_gone b0 (h.map FEvB.erase) hh.2 i o ho' hgone' (h2.map FEvB.erase) hh2.2
+  rw [(hcall2 _).1]
+  intro hc
+  exact this (Option.some.inj hc)
+
+/-- **C02_answers_stable_any_stat_bytes.** `==` and `hash()` of existing objects are not affected by anything that
+    happens later — in particular not by the processes renaming themselves, nor by a PID passing to a process with
+    the same name: the identity an object was given at construction is never re-read from the stat file. -/
+theorem C02_answers_stable_any_stat_bytes (b0 : Nat) (h : List FEvB) (hh : FHistOKB h) (i j : Nat) (a b : PObj)
+    (ha : (runFB scfg cfg statFault (FStB.init b0) h).sb.ps.objs[i]? = some a)
+    (hb : (runFB scfg cfg statFault (FStB.init b0) h).sb.ps.objs[j]? = some b)
+    (h2 : List FEvB) (hh2 : FHistOKB h2) :
+    ((runFB scfg cfg statFault (runFB scfg cfg statFault (FStB.init b0) h) h2).step scfg cfg statFault (.ev (.c (.eq i j)))).2
+        = ((runFB scfg cfg statFault (FStB.init b0) h).step scfg cfg statFault (.ev (.c (.eq i j)))).2
+    ∧ ((runFB scfg cfg statFault (runFB scfg cfg statFault (FStB.init b0) h) h2).step scfg cfg statFault (.ev (.c (.hash i)))).2
+        = ((runFB scfg cfg statFault (FStB.init b0) h).step scfg cfg statFault (.ev (.c (.hash i)))).2 := by
+  obtain ⟨hrun, hcall⟩ := C02_stat_bytes_refine b0 h hh
+  obtain ⟨hrun2, hcall2⟩ := C02_stat_bytes_refine b0 (h ++ h2) (hh.append hh2)
+  rw [runFB_append] at hrun2 hcall2
+  rw [List.map_append, runF_append] at hrun2 hcall2
+  have ha' : (runF cfg statFault (FSt.init b0) (h.map FEvB.erase)).st.ps.objs[i]? = some a := by rw [← hrun]; exact ha
+  have hb' : (runF cfg statFault (FSt.init b0) (h.map FEvB.erase)).st.ps.objs[j]? = some b := by rw [← hrun]; exact hb
+  obtain ⟨a', ha2, ea⟩ := C02_fault_object_constant b0 (h.map FEvB.erase) hh.2 i a ha' (h2.map FEvB.erase) hh2.2
+  obtain ⟨b', hb2, eb⟩ := C02_fault_object_constant b0 (h.map FEvB.erase) hh.2 j b hb' (h2.map FEvB.erase) hh2.2
+  refine ⟨?_, ?_⟩
+  · rw [(hcall2 _).1, (hcall _).1, stepF_eq_out, stepF_eq_out, step_eq_out cfg _ ha2 hb2, step_eq_out cfg _ ha' hb',
+      ea.pid, eb.pid, ea.ident, eb.ident]
+  · rw [(hcall2 _).1, (hcall _).1, stepF_hash_out, stepF_hash_out, step_hash_out cfg _ ha2, step_hash_out cfg _ ha',
+      ea.pid, ea.ident]
+
+/-- **C02_iter_handles_any_stat_bytes** (`process_iter()` handles follow the process for ANY stat bytes).  After any
+    byte-level history, every handle `(pid, i)` a sweep yields names an object of the resulting state whose PID is
+    `pid` — a cache entry as it was, or a fresh object whose `ghost` is the holder of `pid` in the kernel's OWN table
+    at that instant, with no sticky flag — so every theorem of this section applies to it under index `i`; and the
+    sweep alters no existing object. -/
+theorem C02_iter_handles_any_stat_bytes (b0 : Nat) (h : List FEvB) (hh : FHistOKB h) (l : List (Nat × Nat))
+    (hl : ((runFB scfg cfg statFault (FStB.init b0) h).step scfg cfg statFault (.ev (.c .processIter))).2
+            = some (.ok (.procs l))) :
+    (∀ e ∈ l, ∃ o, ((runFB scfg cfg statFault (FStB.init b0) h).step scfg cfg statFault (.ev (.c .processIter))).1.sb.ps.objs[e.2]?
+          = some o ∧ o.pid = e.1
+        ∧ (e ∈ (runFB scfg cfg statFault (FStB.init b0) h).sb.ps.pmap
+            ∨ ((runFB scfg cfg statFault (FStB.init b0) h).sb.ps.objs.length ≤ e.2
+                ∧ (runFB scfg cfg statFault (FStB.init b0) h).sb.kern.forget.owner e.1 = some o.ghost
+                ∧ o.gone = false ∧ o.reused = false)))
+    ∧ ∀ (j : Nat) (o : PObj), (runFB scfg cfg statFault (FStB.init b0) h).sb.ps.objs[j]? = some o →
+        ((runFB scfg cfg statFault (FStB.init b0) h).step scfg cfg statFault (.ev (.c .processIter))).1.sb.ps.objs[j]? = some o := by
+  obtain ⟨hrun, hcall⟩ := C02_stat_bytes_refine b0 h hh
+  obtain ⟨hout, hst⟩ := hcall .processIter
+  rw [hout] at hl
+  have hl' := Option.some.inj hl
+  have hobjs : ((runFB scfg cfg statFault (FStB.init b0) h).step scfg cfg statFault (.ev (.c .processIter))).1.sb.ps
+      = (stepF cfg statFault (runF cfg statFault (FSt.init b0) (h.map FEvB.erase)).st
+          (runF cfg statFault (FSt.init b0) (h.map FEvB.erase)).faulty .processIter).1.ps := by
+    have := congrArg (fun x => x.st.ps) hst
+    exact this
+  have hps : (runFB scfg cfg statFault (FStB.init b0) h).sb.ps = (runF cfg statFault (FSt.init b0) (h.map FEvB.erase)).st.ps := by
+    rw [← hrun]; rfl
+  have hkern : (runFB scfg cfg statFault (FStB.init b0) h).sb.kern.forget = (runF cfg statFault (FSt.init b0) (h.map FEvB.erase)).st.kern := by
+    rw [← hrun]; rfl
+  rw [hobjs, hps, hkern]
+  have hinv := frun_inv b0 (h.map FEvB.erase) hh.2
+  rw [cfg_stat_fault_propagates.2.2.2.2.2] at hl' ⊢
+  generalize (runF cfg .propagates (FSt.init b0) (h.map FEvB.erase)).st = s at *
+  generalize (runF cfg .propagates (FSt.init b0) (h.map FEvB.erase)).faulty = F at *
+  have hinv' := stepF_inv cfg_good s F .processIter hinv
+  have hpm := stepF_sweep_pmap cfg s F l hl'
+  obtain ⟨hk, hkeep, hfresh⟩ := (cfg_stat_fault_propagates.2.2.2.2.2 ▸ C02_fault_sweep_keeps_objects s F :
+    (stepF cfg .propagates s F .processIter).1.kern = s.kern
+    ∧ (∀ (j : Nat) (o : PObj), s.ps.objs[j]? = some o → (stepF cfg .propagates s F .processIter).1.ps.objs[j]? = some o)
+    ∧ (∀ e ∈ (stepF cfg .propagates s F .processIter).1.ps.pmap,
+        e ∈ s.ps.pmap ∨ FreshHandle s.kern s.ps.objs.length (stepF cfg .propagates s F .processIter).1.ps.objs e))
+  refine ⟨fun e he => ?_, hkeep⟩
+  have he' : e ∈ (stepF cfg .propagates s F .processIter).1.ps.pmap := hpm ▸ he
+  obtain ⟨o, ho, hp⟩ := hinv'.ps.pmap e he'
+  refine ⟨o, ho, hp, ?_⟩
+  rcases hfresh e he' with hc | ⟨hlen, o2, ho2, _, hown, hg, hr⟩
+  · exact Or.inl hc
+  · rw [ho] at ho2; cases ho2
+    exact Or.inr ⟨hlen, hown, hg, hr⟩
+
+/-! ### the full statements over the byte dimension, for an arbitrary reader; WHAT-IF: the name ends at the first `) ` -/
+
+/-- `C02_isRunning_any_stat_bytes` for an arbitrary reader / configuration / fault path -/
+def IsRunningRightOrWithheld_AnyStatBytes_Full (sc : StatCfg) (c : Cfg) (sf : StatFault) : Prop :=
+  ∀ (b0 : Nat) (h : List FEvB), FHistOKB h → ∀ (i : Nat) (o : PObj),
+    (runFB sc c sf (FStB.init b0) h).sb.ps.objs[i]? = some o →
+    RightOrWithheldB (runFB sc c sf (FStB.init b0) h).faulty (runFB sc c sf (FStB.init b0) h).sb.kern o
+      ((runFB sc c sf (FStB.init b0) h).step sc c sf (.ev (.c (.isRunning i)))).2
+
+/-- the `==` half of `C02_eq_hash_any_stat_bytes` for an arbitrary reader / configuration / fault path -/
+def EqIffSame_AnyStatBytes_Full (sc : StatCfg) (c : Cfg) (sf : StatFault) : Prop :=
+  ∀ (b0 : Nat) (h : List FEvB), FHistOKB h → ∀ (i j : Nat) (a b : PObj),
+    (runFB sc c sf (FStB.init b0) h).sb.ps.objs[i]? = some a → (runFB sc c sf (FStB.init b0) h).sb.ps.objs[j]? = some b →
+    ((runFB sc c sf (FStB.init b0) h).step sc c sf (.ev (.c (.eq i j)))).2 = some (.ok (.bool (decide (SameIncarnation a b))))
+
+/-- both hold for the source as extracted -/
+theorem C02_stat_full_statements :
+    IsRunningRightOrWithheld_AnyStatBytes_Full scfg cfg statFault ∧ EqIffSame_AnyStatBytes_Full scfg cfg statFault :=
+  ⟨fun b0 h hh i o ho => C02_isRunning_any_stat_bytes b0 h hh i o ho,
+   fun b0 h hh i j a b ha hb => (C02_eq_hash_any_stat_bytes b0 h hh i j a b ha hb).1⟩
+
+/-- WHAT-IF reader `head, _, tail = data.partition(b') ')` / `rpar = data.find(b') ')`: the name ends at the FIRST closing
+    parenthesis that is followed by a space (the shape of seeded change C02-6; not the checked source) -/
+def scfgFirstRparSp : StatCfg := ⟨.find, [41, 32], 2, 19, 0⟩
+/-- a line with zeros in every other field -/
+def auxZero : Aux := ⟨83, 1, List.replicate 17 0, List.replicate 30 0⟩
+/-- PID 7, started at tick 5, called `ab` … -/
+def procAB : InstB := ⟨7, 5, false, 5, [97, 98], auxZero⟩
+/-- … the very same process after it renamed itself to `a) b` (`execve("./a) b")`, `prctl(PR_SET_NAME)`) -/
+def procRen : InstB := ⟨7, 5, false, 5, [97, 41, 32, 98], auxZero⟩
+/-- a live process, an object built for it, then the process renames itself -/
+def witnessRename : List FEvB :=
+  [.ev (.k (.tick 5)), .ev (.k (.spawn 7 [97, 98] auxZero)), .ev (.c (.newObj 7)), .ev (.k (.rewrite 7 [97, 41, 32, 98] auxZero))]
+
+example : FHistOKB witnessRename := by decide
+
+/-- (helper) what the what-if reader makes of the four lines: the ordinary name is read correctly, a name containing `) `
+    shifts every field and starttime is read from itrealvalue (always 0) -/
+theorem read_procAB : readStat scfgFirstRparSp (statLine procAB) = .ok 5 false := by
+  have : statLine procAB = [55, 32, 40, 97, 98, 41, 32, 83, 32, 49] ++ (List.replicate 17 [32, 48]).flatten
+      ++ [32, 53] ++ (List.replicate 30 [32, 48]).flatten ++ [10] := by
+    simp [statLine, statTail, procAB, auxZero, stateTok, renderDec_small, renderInt, joinWith]
+  rw [this]; decide
+
+theorem read_procRen : readStat scfgFirstRparSp (statLine procRen) = .ok 0 false := by
+  have : statLine procRen = [55, 32, 40, 97, 41, 32, 98, 41, 32, 83, 32, 49] ++ (List.replicate 17 [32, 48]).flatten
+      ++ [32, 53] ++ (List.replicate 30 [32, 48]).flatten ++ [10] := by
+    simp [statLine, statTail, procRen, auxZero, stateTok, renderDec_small, renderInt, joinWith]
+  rw [this]; decide
+
+theorem view_procAB : view scfgFirstRparSp ⟨[procAB], 6, 1000, [], []⟩ = some ⟨[⟨7, 5, false, 5⟩], 6, 1000, [], []⟩ := by
+  simp [view, viewProcs, viewInst, read_procAB]; exact ⟨rfl, rfl⟩
+theorem view_procRen : view scfgFirstRparSp ⟨[procRen], 6, 1000, [], []⟩ = some ⟨[⟨7, 5, false, 0⟩], 6, 1000, [], []⟩ := by
+  simp [view, viewProcs, viewInst, read_procRen]; exact ⟨rfl, rfl⟩
+
+
+/-- psutil's state after `Process(7)` under the what-if reader (the line `7 (ab) …` parses correctly) -/
+def psAfterNew : Ps × List Eff :=
+  let r := stepF cfg .propagates ⟨⟨[⟨7, 5, false, 5⟩], 6, 1000, [], []⟩, ⟨none, [], [], []⟩, []⟩ [] (.newObj 7)
+  (r.1.ps, r.1.log)
+
+/-- (helper) the state `witnessRename` reaches under the what-if reader -/
+theorem run_witnessRename : runFB scfgFirstRparSp cfg .propagates (FStB.init 1000) witnessRename
+    = ⟨⟨⟨[procRen], 6, 1000, [], []⟩, psAfterNew.1, psAfterNew.2⟩, []⟩ := by
+  have h2 : runFB scfgFirstRparSp cfg .propagates (FStB.init 1000) (witnessRename.take 2)
+      = ⟨⟨⟨[procAB], 6, 1000, [], []⟩, ⟨none, [], [], []⟩, []⟩, []⟩ := rfl
+  have h3 : runFB scfgFirstRparSp cfg .propagates (FStB.init 1000) (witnessRename.take 3)
+      = ⟨⟨⟨[procAB], 6, 1000, [], []⟩, psAfterNew.1, psAfterNew.2⟩, []⟩ := by
+    have : witnessRename.take 3 = witnessRename.take 2 ++ [.ev (.c (.newObj 7))] := rfl
+    rw [this, runFB_append, h2]
+    simp only [runFB, FStB.step, view_procAB]
+    rfl
+  have : witnessRename = witnessRename.take 3 ++ [.ev (.k (.rewrite 7 [97, 41, 32, 98] auxZero))] := rfl
+  rw [this, runFB_append, h3]
+  rfl
+
+/-- first holder of PID 7 (start 0), called `a) b` -/
+def procA : InstB := ⟨7, 0, false, 0, [97, 41, 32, 98], auxZero⟩
+/-- second holder of PID 7 (start 1), called `c) d` -/
+def procC : InstB := ⟨7, 1, false, 1, [99, 41, 32, 100], auxZero⟩
+/-- PID 7 passes from a process called `a) b` to a process called `c) d`; one object built for each -/
+def witnessRecycle : List FEvB :=
+  [.ev (.k (.spawn 7 [97, 41, 32, 98] auxZero)), .ev (.c (.newObj 7)), .ev (.k (.reap 7)),
+   .ev (.k (.spawn 7 [99, 41, 32, 100] auxZero)), .ev (.c (.newObj 7))]
+
+example : FHistOKB witnessRecycle := by decide
+
+theorem read_procA : readStat scfgFirstRparSp (statLine procA) = .ok 0 false := by
+  have : statLine procA = [55, 32, 40, 97, 41, 32, 98, 41, 32, 83, 32, 49] ++ (List.replicate 17 [32, 48]).flatten
+      ++ [32, 48] ++ (List.replicate 30 [32, 48]).flatten ++ [10] := by
+    simp [statLine, statTail, procA, auxZero, stateTok, renderDec_small, renderInt, joinWith]
+  rw [this]; decide
+
+theorem read_procC : readStat scfgFirstRparSp (statLine procC) = .ok 0 false := by
+  have : statLine procC = [55, 32, 40, 99, 41, 32, 100, 41, 32, 83, 32, 49] ++ (List.replicate 17 [32, 48]).flatten
+      ++ [32, 49] ++ (List.replicate 30 [32, 48]).flatten ++ [10] := by
+    simp [statLine, statTail, procC, auxZero, stateTok, renderDec_small, renderInt, joinWith]
+  rw [this]; decide
+
+theorem view_procA : view scfgFirstRparSp ⟨[procA], 1, 1000, [], []⟩ = some ⟨[⟨7, 0, false, 0⟩], 1, 1000, [], []⟩ := by
+  simp [view, viewProcs, viewInst, read_procA]; exact ⟨rfl, rfl⟩
+theorem view_procC : view scfgFirstRparSp ⟨[procC], 2, 1000, [], []⟩ = some ⟨[⟨7, 1, false, 0⟩], 2, 1000, [], []⟩ := by
+  simp [view, viewProcs, viewInst, read_procC]; exact ⟨rfl, rfl⟩
+
+def psOld : Ps × List Eff :=
+  let r := stepF cfg .propagates ⟨⟨[⟨7, 0, false, 0⟩], 1, 1000, [], []⟩, ⟨none, [], [], []⟩, []⟩ [] (.newObj 7)
+  (r.1.ps, r.1.log)
+def psBoth : Ps × List Eff :=
+  let r := stepF cfg .propagates ⟨⟨[⟨7, 1, false, 0⟩], 2, 1000, [], []⟩, psOld.1, psOld.2⟩ [] (.newObj 7)
+  (r.1.ps, r.1.log)
+
+/-- (helper) the state `witnessRecycle` reaches under the what-if reader -/
+theorem run_witnessRecycle : runFB scfgFirstRparSp cfg .propagates (FStB.init 1000) witnessRecycle
+    = ⟨⟨⟨[procC], 2, 1000, [], []⟩, psBoth.1, psBoth.2⟩, []⟩ := by
+  have h1 : runFB scfgFirstRparSp cfg .propagates (FStB.init 1000) (witnessRecycle.take 1)
+      = ⟨⟨⟨[procA], 1, 1000, [], []⟩, ⟨none, [], [], []⟩, []⟩, []⟩ := rfl
+  have h2 : runFB scfgFirstRparSp cfg .propagates (FStB.init 1000) (witnessRecycle.take 2)
+      = ⟨⟨⟨[procA], 1, 1000, [], []⟩, psOld.1, psOld.2⟩, []⟩ := by
+    have : witnessRecycle.take 2 = witnessRecycle.take 1 ++ [.ev (.c (.newObj 7))] := rfl
+    rw [this, runFB_append, h1]
+    simp only [runFB, FStB.step, view_procA]
+    rfl
+  have h4 : runFB scfgFirstRparSp cfg .propagates (FStB.init 1000) (witnessRecycle.take 4)
+      = ⟨⟨⟨[procC], 2, 1000, [], []⟩, psOld.1, psOld.2⟩, []⟩ := by
+    have : witnessRecycle.take 4 = witnessRecycle.take 2
+        ++ [.ev (.k (.reap 7)), .ev (.k (.spawn 7 [99, 41, 32, 100] auxZero))] := rfl
+    rw [this, runFB_append, h2]
+    rfl
+  have : witnessRecycle = witnessRecycle.take 4 ++ [.ev (.c (.newObj 7))] := rfl
+  rw [this, runFB_append, h4]
+  simp only [runFB, FStB.step, view_procC]
+  rfl
+
+/-- **C02_first_rpar_space_counterexample** (WHAT-IF, the shape of seeded change C02-6; not the checked source).  With a
+    reader that ends the name at the first `) `, both full statements over the byte dimension are FALSE:
+    * `witnessRename` — a live process called `ab`, an object built for it, the process renames itself to `a) b`:
+      `is_running()` answers False although the object's own incarnation is in the kernel's table (the fresh
+      `Process(pid)` reads starttime from itrealvalue = 0 instead of 5, so `self != Process(self.pid)`);
+    * `witnessRecycle` — PID 7 passes from a process called `a) b` to one called `c) d`, one object each: the two
+      objects compare EQUAL although they were built for different process starts (both starttimes read as 0).
+    The extracted reader answers True / False on the same histories (`example` below); both histories are replayed on
+    the real code by the check (corpus of family `x:stat`). -/
+theorem C02_first_rpar_space_counterexample :
+    ¬ IsRunningRightOrWithheld_AnyStatBytes_Full scfgFirstRparSp cfg .propagates
+    ∧ ¬ EqIffSame_AnyStatBytes_Full scfgFirstRparSp cfg .propagates := by
+  constructor
+  · intro H
+    have hobj : psAfterNew.1.objs[0]? = some ⟨7, some (5 + cfg.clk * 1000), some (5 + cfg.clk * 1000), false, false, 5⟩ := by decide
+    have := H 1000 witnessRename (by decide) 0 _ (by rw [run_witnessRename]; exact hobj)
+    rw [run_witnessRename] at this
+    simp only [FStB.step, view_procRen] at this
+    have hout : (stepF cfg .propagates ⟨⟨[⟨7, 5, false, 0⟩], 6, 1000, [], []⟩, psAfterNew.1, psAfterNew.2⟩ [] (.isRunning 0)).2
+        = .ok (.bool false) := by decide
+    rw [hout] at this
+    rcases this with ⟨_, h⟩ | ⟨hn, _⟩ | ⟨h, _⟩
+    · cases h
+    · exact hn ⟨procRen, by simp, rfl, rfl⟩
+    · cases h
+  · intro H
+    have h0 : psBoth.1.objs[0]? = some ⟨7, some (0 + cfg.clk * 1000), some (0 + cfg.clk * 1000), false, false, 0⟩ := by decide
+    have h1 : psBoth.1.objs[1]? = some ⟨7, some (0 + cfg.clk * 1000), some (0 + cfg.clk * 1000), false, false, 1⟩ := by decide
+    have := H 1000 witnessRecycle (by decide) 0 1 _ _ (by rw [run_witnessRecycle]; exact h0) (by rw [run_witnessRecycle]; exact h1)
+    rw [run_witnessRecycle] at this
+    simp only [FStB.step, view_procC] at this
+    revert this
+    decide
+
+/-- non-vacuity, the extracted configuration on the same two histories: after the rename `is_running()` is True, and
+    the objects of the two holders of PID 7 are unequal -/
+example :
+    ((runFB scfg cfg statFault (FStB.init 1000) witnessRename).step scfg cfg statFault (.ev (.c (.isRunning 0)))).2
+      = some (.ok (.bool true))
+    ∧ ((runFB scfg cfg statFault (FStB.init 1000) witnessRecycle).step scfg cfg statFault (.ev (.c (.eq 0 1)))).2
+      = some (.ok (.bool false)) := by
+  rw [((C02_stat_bytes_refine 1000 witnessRename (by decide)).2 _).1,
+    ((C02_stat_bytes_refine 1000 witnessRecycle (by decide)).2 _).1]
+  decide
 
 end Psutil.C02
